@@ -45,6 +45,68 @@ def dec(x):
     return [1 if sign else 0, exp] + limbs
 
 
+def cell(x):
+    """numeric table cell -> always a list of ints: a number in wire form, or a code list
+    [2,0] blank / None, [3,0] NaN, [4,0] +-inf, [5,0] any other non-number"""
+    import numpy as np
+
+    if x is None or (isinstance(x, str) and x == ""):
+        return [2, 0]
+    if isinstance(x, (bool, np.bool_)) or isinstance(x, str):
+        return [5, 0]
+    try:
+        w = dec(x.item() if isinstance(x, (np.integer, np.floating)) else x)
+    except Exception:
+        return [5, 0]
+    if w == "nan":
+        return [3, 0]
+    if w == "inf":
+        return [4, 0]
+    return w
+
+
+def pwire(v):
+    """component parameter -> tagged record {"k": kind, ...} so that TLC never has to guess a type:
+    c constant, t1 1-D table, t2 2-D table, l list of numbers, b bool, s string, x other"""
+    import numpy as np
+
+    if isinstance(v, (bool, np.bool_)):
+        return {"k": "b", "v": bool(v)}
+    if isinstance(v, str):
+        return {"k": "s", "v": v}
+    if isinstance(v, (int, float, np.integer, np.floating)):
+        return {"k": "c", "v": cell(v)}
+    if isinstance(v, list):
+        if all(isinstance(e, (int, float)) and not isinstance(e, bool) for e in v):
+            return {"k": "l", "v": [cell(e) for e in v]}
+        return {"k": "x", "v": repr(v)[:60]}
+    if isinstance(v, dict) and "vi" in v and "io" in v:
+        zk = [k for k in v if k not in ("vi", "io")]
+        try:
+            if len(zk) == 1:
+                z = v[zk[0]]
+                return {"k": "t1" if len(v["vi"]) == 1 else "t2", "z": zk[0],
+                        "vi": [cell(e) for e in v["vi"]], "io": [cell(e) for e in v["io"]],
+                        "f": [[cell(e) for e in row] for row in z]}
+        except Exception:
+            pass
+    return {"k": "x", "v": repr(v)[:60]}
+
+
+def unpwire(t):
+    k = t["k"]
+    if k in ("b", "s"):
+        return t["v"]
+    if k == "c":
+        return float(undec(t["v"]))
+    if k == "l":
+        return [float(undec(e)) for e in t["v"]]
+    if k in ("t1", "t2"):
+        return {"vi": [float(undec(e)) for e in t["vi"]], "io": [float(undec(e)) for e in t["io"]],
+                t["z"]: [[float(undec(e)) for e in row] for row in t["f"]]}
+    raise ValueError("cannot rebuild parameter %r" % (t,))
+
+
 def undec(w):
     """wire list -> Decimal (for self tests / reports)"""
     if isinstance(w, str):
